@@ -10,12 +10,19 @@ CUT = [J + r'JSON::JSON', J + r'JSON::~JSON', J + r'JSON::operator', r'std::runt
 SYM = lambda n: core.csym(FAM, '^' + J + r'JSONParser::' + n + r'\(')
 JSTR = 'F__ZN10chaiscript4json4JSONC2INSt7__cxx1112basic_stringIcSt11char_traitsIcESaIcEEEEET_PNSt9enable_ifIXsr14is_convertibleIS9_S8_EE5valueEvE4typeE'
 
+def replay_j1(inp, shape, failed):
+    try: hx = ''.join(inp['in[%dl]' % i]['hex'][-2:] for i in range(shape['N']))
+    except Exception as e: return None, 'inputs missing from trace: %s (%s)' % (sorted(inp)[:8], e)
+    cmd = [core.native_tool('c18_replay'), hx or '-']
+    r = core.run(cmd, timeout=60)
+    return (True if r.returncode == 1 else False if r.returncode == 0 else None), ' '.join(cmd[1:]) + ' -> ' + r.stdout.strip()
+
 def harnesses(tier):
     hs = []
     ns1 = [0, 1, 2, 3, 4] if tier == 'quick' else [0, 1, 2, 3, 4, 5, 6]
     hs.append(Harness('J1.string_roundtrip', FAM, [J + r'JSON::json_escape', J + r'JSONParser::parse_string'], 'c18_json.c', stubs=CUT,
                       shapes=[dict(MODE=1, N=n, ESCAPE=core.csym(FAM, J + r'JSON::json_escape'), PARSE_STRING=SYM('parse_string'), JSON_FROM_STRING=JSTR, _tag='N=%d' % n, _witness=('witness: round trip',)) for n in ns1],
-                      opts=['--unwind', '8', '--unwindset', 'set_text.0:17,main.0:18,main.1:18,main.2:18,main.3:18,' + JSTR + '.0:18', '--no-array-field-sensitivity'], timeout=600, mem_gb=10, string_model=True, defines={'STRING_LITERALS_OPAQUE': 1}, inputs=['in'],
+                      opts=['--unwind', '8', '--unwindset', 'set_text.0:17,main.0:18,main.1:18,main.2:18,main.3:18,' + JSTR + '.0:18', '--no-array-field-sensitivity'], timeout=600, mem_gb=10, string_model=True, defines={'STRING_LITERALS_OPAQUE': 1}, inputs=['in'], replay=replay_j1,
                       note='every string of exactly N bytes (all 256 byte values)'))
     ns2 = [0, 1, 2, 3, 4] if tier == 'quick' else [0, 1, 2, 3, 4, 5, 6, 7]
     for which, (nm, fn) in {1: ('parse_string', 'parse_string'), 2: ('parse_bool', 'parse_bool'), 4: ('parse_null', 'parse_null'), 3: ('consume_ws', 'consume_ws')}.items():
